@@ -731,6 +731,161 @@ def r01_6(ctx: Ctx):
     return [ctx.ob("R01.6", f, x, status=OK if ok else VIOLATION, detail="x = genome of the tree's best individual (a recorded, box-closed individual)" if ok else f"minimize() returns x = `{norm(x)}`")]
 
 
+# ---------------------------------------------------------------- R01.7 symbolic intervals for the repair function
+NEG, POS = float("-inf"), float("inf")
+
+
+def _iv_add(a, b):
+    """endpoints are (coefficient of R, constant) with constant in {0, -inf, +inf}"""
+    if a[1] in (NEG, POS) or b[1] in (NEG, POS):
+        if NEG in (a[1], b[1]) and POS in (a[1], b[1]):
+            return None
+        return (0, NEG if NEG in (a[1], b[1]) else POS)
+    return (a[0] + b[0], 0)
+
+
+def _iv_neg(a):
+    return (-a[0], -a[1] if a[1] in (NEG, POS) else 0)
+
+
+def _le(a, b):
+    """a <= b for all R > 0"""
+    if a[1] == NEG or b[1] == POS:
+        return True
+    if a[1] == POS or b[1] == NEG:
+        return False
+    return a[0] <= b[0]
+
+
+class RepairIntervals:
+    """Abstract values: ("off", lo, hi)  = value - lower in [lo, hi];  ("abs",) = unconstrained genome;
+    ("L",) ("U",) ("R",) the lower / upper column and the range; ("other",)."""
+
+    def __init__(self, fn):
+        self.fn = fn
+        self.gp, self.bp = fn.params()[0], fn.params()[1]
+
+    def val(self, e, env):
+        t = canon(e)
+        if isinstance(e, ast.Name):
+            if e.id in env:
+                return env[e.id]
+            if e.id == self.gp:
+                return ("off", (0, NEG), (0, POS))
+            return ("other",)
+        if t == f"{self.bp}[:,0]":
+            return ("L",)
+        if t == f"{self.bp}[:,1]":
+            return ("U",)
+        if isinstance(e, ast.BinOp):
+            l, r = self.val(e.left, env), self.val(e.right, env)
+            if isinstance(e.op, ast.Sub):
+                if l == ("U",) and r == ("L",):
+                    return ("R",)
+                if l[0] == "off" and r == ("L",):
+                    return l  # genome - lower: already tracked as an offset from lower
+                if l == ("R",) and r[0] == "off":
+                    lo, hi = _iv_add((1, 0), _iv_neg(r[2])), _iv_add((1, 0), _iv_neg(r[1]))
+                    return ("off", lo, hi) if lo is not None and hi is not None else ("off", (0, NEG), (0, POS))
+                if l[0] == "off" or r[0] == "off":
+                    return ("off", (0, NEG), (0, POS))
+            if isinstance(e.op, ast.Add):
+                for a, b in ((l, r), (r, l)):
+                    if a == ("L",) and b[0] == "off":
+                        return ("absoff", b[1], b[2])
+                if l[0] == "off" or r[0] == "off":
+                    return ("off", (0, NEG), (0, POS))
+            if isinstance(e.op, ast.Mod):
+                if r == ("R",) and l[0] in ("off",):
+                    return ("off", (0, 0), (1, 0))
+            if isinstance(e.op, (ast.Mult, ast.Div, ast.FloorDiv, ast.Pow)):
+                if l[0] == "off" or r[0] == "off" or l[0] == "absoff" or r[0] == "absoff":
+                    return ("off", (0, NEG), (0, POS))
+                if {l, r} & {("L",), ("U",)}:
+                    return ("other",)
+            return ("other",)
+        if isinstance(e, ast.Call):
+            fn = norm(e.func)
+            a = e.args
+            if fn in ("np.mod", "np.remainder", "np.fmod") and len(a) == 2:
+                x, m = self.val(a[0], env), self.val(a[1], env)
+                if m == ("R",) and x[0] == "off" and fn != "np.fmod":
+                    return ("off", (0, 0), (1, 0))
+                return ("other",) if x[0] != "off" else ("off", (0, NEG), (0, POS))
+            if fn in ("np.where",) and len(a) == 3:
+                x, y = self.val(a[1], env), self.val(a[2], env)
+                if x[0] == y[0] and x[0] in ("off", "absoff"):
+                    lo = x[1] if _le(x[1], y[1]) else y[1]
+                    hi = x[2] if _le(y[2], x[2]) else y[2]
+                    return (x[0], lo, hi)
+                if "off" in (x[0], y[0]) and "absoff" in (x[0], y[0]):
+                    return ("mixed",)
+                return ("other",)
+            if fn in ("np.clip",) and len(a) == 3:
+                lo, hi = self.val(a[1], env), self.val(a[2], env)
+                if lo == ("L",) and hi == ("U",):
+                    return ("absoff", (0, 0), (1, 0))
+                return ("absoff", (0, NEG), (0, POS))
+            if fn in ("np.floor_divide", "np.floor", "np.abs", "np.sign"):
+                return ("other",)
+            if fn in ("np.minimum", "np.maximum") and len(a) == 2:
+                x, y = self.val(a[0], env), self.val(a[1], env)
+                # maximum(genomes, lower) >= lower ; minimum(.., upper) <= upper  (in offset form)
+                def as_off(v):
+                    if v == ("L",):
+                        return ("off", (0, 0), (0, 0))
+                    if v == ("U",):
+                        return ("off", (1, 0), (1, 0))
+                    if v[0] == "absoff":
+                        return ("off", v[1], v[2])
+                    return v
+                x, y = as_off(x), as_off(y)
+                if x[0] == y[0] == "off":
+                    if fn == "np.maximum":
+                        lo = x[1] if _le(y[1], x[1]) else y[1]
+                        hi = x[2] if _le(y[2], x[2]) else y[2]
+                    else:
+                        lo = x[1] if _le(x[1], y[1]) else y[1]
+                        hi = x[2] if _le(x[2], y[2]) else y[2]
+                    return ("absoff", lo, hi)
+            return ("other",)
+        if isinstance(e, ast.Compare):
+            return ("other",)
+        return ("other",)
+
+
+def r01_7(ctx: Ctx):
+    """R01.7 every branch of apply_bounds returns lower + offset with offset in [0, range] (symbolic interval interpretation; mod by the range bounds the offset)."""
+    ab = ctx.prog.func("pyhms.demes.single_pop_eas.common", "apply_bounds")
+    interp = RepairIntervals(ab)
+    mp = ab.params()[2]
+    obs = []
+    # walk the if/elif chain on the method
+    def branches(stmts, env):
+        for st in stmts:
+            if isinstance(st, ast.Assign) and len(st.targets) == 1 and isinstance(st.targets[0], ast.Name):
+                env[st.targets[0].id] = interp.val(st.value, env)
+            elif isinstance(st, ast.If):
+                yield from branches(st.body, dict(env))
+                yield from branches(st.orelse, dict(env))
+            elif isinstance(st, ast.Return):
+                yield st, dict(env)
+
+    n = 0
+    for ret, env in branches(ab.node.body, {}):
+        n += 1
+        v = interp.val(ret.value, env)
+        ok = v[0] == "absoff" and _le((0, 0), v[1]) and _le(v[2], (1, 0))
+        if ok:
+            obs.append(ctx.ob("R01.7", ab, ret, detail=f"`{norm(ret.value)[:60]}` lies in [lower, upper] for every input (offset interval within [0, range])"))
+        else:
+            desc = "unbounded" if v[0] in ("off", "absoff") else "not of the form lower + bounded offset"
+            obs.append(ctx.ob("R01.7", ab, ret, status=VIOLATION if v[0] in ("off", "absoff", "mixed") else INCONCLUSIVE, detail=f"apply_bounds returns `{norm(ret.value)[:70]}`, whose distance from the lower bound is {desc} ({v}): an input far enough outside the box is returned outside the box (e.g. a single mirror image of a point more than one range away)"))
+    if n < 3:
+        raise AnalysisError(f"apply_bounds has only {n} returning branches")
+    return obs
+
+
 RULES = [
     ("R01.1", r01_1, 10),
     ("R01.2", r01_2, 14),
@@ -738,4 +893,5 @@ RULES = [
     ("R01.4", r01_4, 7),
     ("R01.5", r01_5, 5),
     ("R01.6", r01_6, 1),
+    ("R01.7", r01_7, 3),
 ]
